@@ -67,6 +67,7 @@ class Intervals:
                 if fl:
                     idx.setdefault(sym.norm(ys), []).append((fl, xs))
         self.ctx = idx
+        self.bi = bi
         return self
 
     def term(self, t, depth=0):
@@ -99,9 +100,20 @@ class Intervals:
                     r = (max(lo, r[0]), min(hi, r[1]))
         return r
 
+    def op_term(self, op):
+        """term of an operand read at the site block: a direct read of a variable with several definitions (a loop counter) is named by
+        the SSA version that reaches the site, so that it compares equal to the snapshot a dominating test was made on"""
+        t = self.prov.op(op)
+        bi = getattr(self, "bi", None)
+        if bi is not None and op["k"] in ("copy", "move") and not op["p"]["p"] and t[0] == "local" and len(t) <= 3:
+            v = self.b.ssa_version(op["p"]["l"], bi, "t")
+            if v is not None and v[0] in ("d", "phi", "entry"):
+                return ("local", t[1], t[2] if len(t) > 2 else None, v)
+        return t
+
     def op(self, op):
         ty = (op.get("p") or {}).get("ty") if op["k"] in ("copy", "move") else op.get("ty")
-        return meet(self.term(self.prov.op(op)), INT.get(ty))
+        return meet(self.term(self.op_term(op)), INT.get(ty))
 
     def term_ty(self, t):
         k = t[0]
@@ -340,7 +352,7 @@ def discharge(fx, O, s, cache):
             return "interval [%d, %d] %s [%d, %d] = [%d, %d] fits %s" % (a[0], a[1], s.op, c[0], c[1], r[0], r[1], s.ty)
     if s.op != "Sub":
         return None
-    ta, tc = sym.strip(prov.op(ops[0])), sym.strip(prov.op(ops[1]))
+    ta, tc = sym.strip(iv.op_term(ops[0])), sym.strip(iv.op_term(ops[1]))
     na, nc = sym.norm(ta), sym.norm(tc)
     # both readings of one monotone counter
     if is_counter(ta) and is_counter_or_snapshot(tc, ta):
@@ -372,6 +384,15 @@ def discharge(fx, O, s, cache):
                 if y1 == na and kx is not None:
                     if (o == "Lt" and kx >= kc - 1) or (o == "Le" and kx >= kc) or (o == "Ne" and kx == 0 and kc == 1) or (o == "Eq" and kx >= kc):
                         return "dominated by %d %s minuend" % (kx, o)
+    if kc == 1 and rng and rng[0] == 0:
+        # x - 1 where x is odd (`if len.is_odd() { len -= 1 }`)
+        for tb, fb, call, sw in guards.bool_call_conditions(b, prov):
+            if tb is not None and b.dominates(tb, bi) and (call[4] or call[1] or "").endswith("::is_odd") and call[2]:
+                a0 = sym.strip(call[2][0])
+                while a0[0] in ("ref", "deref"):
+                    a0 = sym.strip(a0[1])
+                if sym.norm(a0) == na:
+                    return "minuend is odd (is_odd() dominates), so it is at least 1"
     if la is not None and kc == 1:
         import indexing
         for tb, fb, call, sw in guards.bool_call_conditions(b, prov):
@@ -386,7 +407,7 @@ def refine(b, prov, iv, conds, bi, op, cur):
     x < y with y <= U gives x <= U - 1, x <= y gives x <= U; likewise lower bounds from > and >="""
     if cur is None:
         return cur
-    t = sym.norm(sym.strip(prov.op(op)))
+    t = sym.norm(sym.strip(iv.op_term(op) if hasattr(iv, "op_term") else prov.op(op)))
     lo, hi = cur
     for tb, fb, o, x, y, sw in conds:
         for blk, oo in ((tb, o), (fb, guards.CMP_NEG.get(o))):
@@ -464,7 +485,7 @@ def rule_overflow(run, fx, rule="C01-e", floors=True, select=None, floor_n=300):
         if why:
             run.ok(rule, "%s: %s %s: %s" % (s.b.path, s.op, s.ty, why))
         else:
-            run.fail(rule, s.key(), "%s in %s in %s can overflow: neither discharged by interval/guard reasoning nor audited" % (s.op, s.ty, s.b.path), s.loc(), ledger="arith")
+            run.fail(rule, s.key(), "%s in %s in %s can overflow: neither discharged by interval/guard reasoning nor audited" % (s.op, s.ty, s.b.path), s.loc(), ledger="arith", alt_keys=fx.alt_keys(s.b, s.key()))
     if floors:
         run.floor(rule, "overflow-checked arithmetic sites in scope", n, floor_n)
     return n
